@@ -117,12 +117,12 @@ package ro
 //@   on complete(ctx) : emits Next(ctx, fallback), Complete(ctx)
 
 //@ operator SkipLast
-//@   props C04 C07
-//@   note safety contract only (circular buffer stays in bounds); the functional contract needs a sequence ghost
+//@   props C04 C07 C09
+//@   note the circular buffer is part of the machine state: a full buffer emits the (context, value) pair stored in the slot that the new value overwrites
 //@   requires count >= 1
 //@   inv len(buffer) == count && 0 <= index && index < count && 0 <= size && size <= count
 //@   on next(ctx, value) when size < count : emits
-//@   on next(ctx, value) when size >= count : emits Next(_, _)
+//@   on next(ctx, value) when size >= count : emits Next(buffer[index].A, buffer[index].B)
 
 // ---------------------------------------------------------------------------
 // ro.go: notifications (modular: callers see only these postconditions)
